@@ -190,14 +190,20 @@ func (b *tableParagraphTransformer) parseRow(segment text.Segment,
 	pos := 0
 	limit := len(line)
 	row := ast.NewTableRow(alignments)
+	opened := false
 	if len(line) > 0 && line[pos] == '|' {
 		pos++
+		opened = true
 	}
+	closed := false
 	if len(line) > 0 && line[limit-1] == '|' {
 		limit--
+		closed = true
 	}
 	i := 0
-	for ; pos < limit; i++ {
+	// pos == limit after a separator (or the opening pipe): an empty cell right
+	// in front of the closing pipe
+	for ; pos < limit || (closed && (i > 0 || opened) && pos == limit); i++ {
 		alignment := ast.AlignNone
 		if i >= len(alignments) {
 			if !isHeader {
